@@ -113,22 +113,6 @@ def okReq (c : ReqCase) (o : ReqObs) : Bool :=
   | .req n m u hs b =>
     n == 1 && m == upper c.method && u == expectedUrl c && b == expectedBody c.calls && headersOk c.calls hs
 
-def isReader : Call → Bool
-  | .bodyReader _ => true
-  | _ => false
-
-/-- the last body call hands over a reader of unknown length -/
-def lastBodyIsReader : List Call → Bool
-  | [] => false
-  | c :: cs => match lastBody cs with
-    | some _ => lastBodyIsReader cs
-    | none => isReader c
-
-/-- Defect region of the pinned tree (`unknown-length-body-dropped`): the body that is sent comes from a reader whose
-    length is not known in advance and is not empty — `into_protocol_request` sends `vec![]` instead
-    (`is_empty() == Some(false)` is false for `None`). -/
-def droppedBody (calls : List Call) : Bool := lastBodyIsReader calls && expectedBody calls != []
-
 /-- Defect region of the pinned tree: no explicit content type, and the body was replaced by one of another kind —
     `set_body` keeps the content type of the *first* body (`copy_content_type_from_body` only fills a gap). -/
 def staleContentType (calls : List Call) : Bool :=
@@ -153,8 +137,7 @@ def rejectKeyReq (c : ReqCase) (o : ReqObs) : String :=
     if n != 1 then "effect-count"
     else if m != upper c.method then "method-altered"
     else if u != expectedUrl c then "url-altered"
-    else if b != expectedBody c.calls then
-      (if droppedBody c.calls && b == [] then "unknown-length-body-dropped" else "body-altered")
+    else if b != expectedBody c.calls then "body-altered"
     else if headersOkButStale c.calls hs then "stale-content-type"
     else if (namesToCheck c.calls hs).any (fun k => expectedValues c.calls k == [] && valuesFor hs k != []) then
       "header-added"
